@@ -9,7 +9,7 @@ decidable condition `tyWF` (`Model/FormWF.lean`) and every instance of it (`okIn
 range, skipped fields at their default) — all attribute combinations at once, not a battery.
 The conditions of `tyWF` that the derive macro does *not* enforce are each shown necessary by a witness schema
 the macro accepts (`deriveOK`) and on which the round trip fails, in the model and (same witnesses, battery types
-S16, S21, S29, S32, S35) on the real code.
+S21, S29, S32, S35) on the real code. The model follows /repo after the repairs C16-F1/F5/F7–F11.
 -/
 import SwimVerif.Proofs.FormTypes
 import SwimVerif.Model.FormIO
@@ -131,12 +131,26 @@ example : okInst exOuter (.struct [.struct [.int 1, .int 2, .int 0, .text "z"], 
 example : fromValue exE02 (toValue exE02 (.variant 4 [.text "h", .int 0, .none])) = some (.variant 4 [.text "h", .int 0, .none]) :=
   C16_from_to _ _ (by decide) (by decide)
 
-/-- Open (T2): `#[form(newtype)]` structs are in the executable model and in the correspondence (battery N01, N02,
-N03, S27, S34, S38) but not yet inside `tyWF`; candidate statement: -/
-def C16_newtype_from_to_open : Prop :=
-  ∀ (n : String) (l : Bool) (t : Ty) (rest : Fields) (x : Inst),
-    tyWF t = true → allSkip rest = true → okInst (.newtype (.cons n l .slot t rest)) x = true →
-    fromValue (.newtype (.cons n l .slot t rest)) (toValue (.newtype (.cons n l .slot t rest)) x) = some x
+/-- **T2**: `#[form(newtype)]` structs (everything delegated to the single field that is not skipped) are inside
+`tyWF` in slot, header, attribute, header-body, list and option position (battery N01, N02, N03, S27); this is the
+former open statement, now a corollary of `C16_from_to`. A newtype used as `#[form(body)]` stays outside (`bodySafe`;
+battery S33 shows it fails over a primitive, S34/S38 are tied by correspondence only). -/
+theorem C16_newtype_from_to (n : String) (l : Bool) (t : Ty) (rest : Fields) (x : Inst)
+    (ht : tyWF t = true) (hr : allSkip rest = true) (hx : okInst (.newtype (.cons n l .slot t rest)) x = true) :
+    fromValue (.newtype (.cons n l .slot t rest)) (toValue (.newtype (.cons n l .slot t rest)) x) = some x := by
+  apply C16_from_to _ _ _ hx
+  simp [tyWF, ntWF, ht, hr]
+
+def exN01 : Ty := .newtype (.cons "" false .slot (.int .i32) .nil)
+def exN03 : Ty := .newtype (.cons "" false .slot (.list (.int .i32)) (.cons "" false .skip (.int .i32) .nil))
+/-- battery type S27 with N03 added: newtypes as attribute, slot, optional header slot, list element -/
+def exS27 : Ty := .struct "S27"
+  (.cons "a" true .attr exN01 (.cons "n" true .slot (.newtype (.cons "inner" true .slot exInner .nil))
+  (.cons "h" true .header (.opt exN01) (.cons "v" true .slot (.list exN03) .nil))))
+example : tyWF exS27 = true := by decide
+example : fromValue exS27 (toValue exS27 (.struct [.struct [.int 1], .struct [.struct [.int 2, .text "x"]], .none,
+    .list [.struct [.list [.int 3], .int 0]]])) = some (.struct [.struct [.int 1], .struct [.struct [.int 2, .text "x"]], .none,
+    .list [.struct [.list [.int 3], .int 0]]]) := C16_from_to _ _ (by decide) (by decide)
 
 /-! ### what the derive macro accepts but the layout cannot invert
 
@@ -144,14 +158,22 @@ The unrestricted statement, over everything `#[derive(Form)]` accepts, is false 
 def C16_from_to_all_derivable : Prop :=
   ∀ t x, deriveOK t = true → okInst t x = true → fromValue t (toValue t x) = some x
 
-/-- battery type S16: `#[form(body)] b: Option<i32>`; `None` is written as the item `Extant`, which neither
-`EmptyBodyRecognizer` nor the inner body recogniser accepts. -/
+/-- battery types S16 / S25: `#[form(body)] b: Option<i32>` (resp. `Option<struct>`). Before the repair of C16-F1
+(/repo f92467d) `None` could not be read back; the model follows the repaired `EmptyBodyRecognizer` and an `Option`
+body over a primitive, struct or enum is now inside `tyWF`. -/
 def wS16 : Ty := .struct "S16" (.cons "b" true .body (.opt (.int .i32)) .nil)
-theorem C16_option_body_fails :
-    deriveOK wS16 = true ∧ okInst wS16 (.struct [.none]) = true
-    ∧ fromValue wS16 (toValue wS16 (.struct [.none])) = none := by decide
+def wS25 : Ty := .struct "S25" (.cons "h1" true .header (.list (.int .i32))
+  (.cons "h2" true .header (.opt (.list .text)) (.cons "b" true .body (.opt exInner) .nil)))
+theorem C16_option_body_roundtrip :
+    tyWF wS16 = true ∧ tyWF wS25 = true
+    ∧ fromValue wS16 (toValue wS16 (.struct [.none])) = some (.struct [.none])
+    ∧ fromValue wS16 (toValue wS16 (.struct [.some (.int 5)])) = some (.struct [.some (.int 5)])
+    ∧ fromValue wS25 (toValue wS25 (.struct [.list [], .none, .none])) = some (.struct [.list [], .none, .none]) :=
+  ⟨by decide, by decide, C16_from_to _ _ (by decide) (by decide), C16_from_to _ _ (by decide) (by decide),
+    C16_from_to _ _ (by decide) (by decide)⟩
 
-/-- battery type S32: `#[form(body)] b: Option<Vec<i32>>`; `Some(vec![])` is read back as `None`. -/
+/-- battery type S32: `#[form(body)] b: Option<Vec<i32>>`; `Some(vec![])` is written as an empty body and read back
+as `None` (inherent to the layout; not repaired by C16-F1). -/
 def wS32 : Ty := .struct "S32" (.cons "a" true .attr (.int .i32) (.cons "b" true .body (.opt (.list (.int .i32))) .nil))
 theorem C16_option_list_body_fails :
     deriveOK wS32 = true ∧ okInst wS32 (.struct [.int 1, .some (.list [])]) = true
@@ -188,8 +210,8 @@ theorem C16_option_of_unit_fails :
 
 theorem C16_from_to_all_derivable_fails : ¬ C16_from_to_all_derivable := by
   intro h
-  have := h wS16 (.struct [.none]) (by decide) (by decide)
-  have h2 : fromValue wS16 (toValue wS16 (.struct [.none])) = none := by decide
+  have := h wS21 (.struct [.int 1, .struct [.int 2, .text "x"]]) (by decide) (by decide)
+  have h2 : fromValue wS21 (toValue wS21 (.struct [.int 1, .struct [.int 2, .text "x"]])) = none := by decide
   rw [h2] at this
   cases this
 
